@@ -1092,6 +1092,28 @@ func (in *inliner) expand(s callSite) (eds []textEdit, a, b token.Pos, ok bool) 
 		}
 		whole := ast.Unparen(st.Rhs[0]) == ast.Expr(call)
 		if !whole && !(nres == 1 && leftmost(st.Rhs[0], call)) {
+			// `x := a || h(y)` is `x := a; if !x { x = h(y) }` (and `a && h(y)`: `if x { x = h(y) }`)
+			be, isBin := ast.Unparen(st.Rhs[0]).(*ast.BinaryExpr)
+			xid, isId := st.Lhs[0].(*ast.Ident)
+			if inList && nres == 1 && len(st.Lhs) == 1 && isBin && isId && xid.Name != "_" && (be.Op == token.LOR || be.Op == token.LAND) &&
+				containsNode(be.Y, call) && leftmost(be.Y, call) && !mentionsName(in.text(be.Y.Pos(), be.Y.End()), xid.Name) && !mentionsName(in.text(be.X.Pos(), be.X.End()), xid.Name) {
+				if tv, okT := info.Types[st.Rhs[0]]; okT && tv.Type != nil {
+					if bt, isB := tv.Type.Underlying().(*types.Basic); isB && (bt.Kind() == types.Bool || bt.Kind() == types.UntypedBool) {
+						op := " = "
+						if st.Tok == token.DEFINE {
+							op = " := "
+						}
+						cond := "!" + xid.Name
+						if be.Op == token.LAND {
+							cond = xid.Name
+						}
+						hoist, label := b0.build(modeTemps, tmp)
+						txt := xid.Name + op + in.text(be.X.Pos(), be.X.End()) + "\nif " + cond + " {\n" + hoist + labelled(label) +
+							xid.Name + " = " + in.text(be.Y.Pos(), call.Pos()) + tmp(0) + in.text(call.End(), be.Y.End()) + "\n}\n"
+						return []textEdit{{start: in.off(st.Pos()), end: in.off(st.End()), text: txt}}, st.Pos(), st.End(), true
+					}
+				}
+			}
 			return nil, 0, 0, false
 		}
 		if nres == 0 {
@@ -1216,6 +1238,22 @@ func (in *inliner) expand(s callSite) (eds []textEdit, a, b token.Pos, ok bool) 
 			hoist, label := b0.build(modeTemps, tmp)
 			txt := hoist + labelled(label) + replaceCall(st.Pos(), st.End(), tmp(0))
 			return []textEdit{{start: in.off(st.Pos()), end: in.off(st.End()), text: txt}}, st.Pos(), st.End(), true
+		}
+		// `return a || h(x)` is `if a { return true }; return h(x)` (and `a && h(x)`: `if !(a) { return false }; ...`):
+		// the call becomes the first thing the remaining expression evaluates
+		if be, isBin := ast.Unparen(st.Results[0]).(*ast.BinaryExpr); isBin && nres == 1 && (be.Op == token.LOR || be.Op == token.LAND) &&
+			containsNode(be.Y, call) && leftmost(be.Y, call) {
+			if tv, okT := info.Types[st.Results[0]]; okT && tv.Type != nil {
+				if bt, isB := tv.Type.Underlying().(*types.Basic); isB && bt.Kind() == types.Bool || isB && bt.Kind() == types.UntypedBool {
+					pre := "if " + in.text(be.X.Pos(), be.X.End()) + " {\nreturn true\n}\n"
+					if be.Op == token.LAND {
+						pre = "if !(" + in.text(be.X.Pos(), be.X.End()) + ") {\nreturn false\n}\n"
+					}
+					hoist, label := b0.build(modeTemps, tmp)
+					txt := pre + hoist + labelled(label) + "return " + in.text(be.Y.Pos(), call.Pos()) + tmp(0) + in.text(call.End(), be.Y.End())
+					return []textEdit{{start: in.off(st.Pos()), end: in.off(st.End()), text: txt}}, st.Pos(), st.End(), true
+				}
+			}
 		}
 	case *ast.IfStmt:
 		if nres != 1 || !containsNode(st.Cond, call) || !in.wrappable(st) {
